@@ -116,7 +116,7 @@ def mech(bad: str, case: dict[str, Any], out_before: str = "") -> str:
 
 def run(ctx: common.Ctx) -> None:
     quick = ctx.tier == "quick"
-    n = 2500 if quick else 40000
+    n = 2500 if quick else 12000
     n = max(10, int(n * float(os.environ.get("VERIF_SCALE", "1"))))
     ctx.rule = ("check-* corpus program (sometimes with one type-breaking mutation) x transformations: `# type: ignore` bare / "
                 "correct code / wrong code / multi-code on error lines, span-interior lines and random lines; --disable-error-code "
